@@ -225,9 +225,15 @@ def run(R, ctx):
     R.suites.append(dict(name="wal", lines=len(obs), evaluations=len(cases), mismatches=len(d["mismatches"]), driver_s=round(d["seconds"], 1)))
     # ---- the property's oracle, evaluated on the real code's results
     kf, other = [], []
+    # the recorded finding is exactly the set of type-byte changes that the MODEL accepts too (C16.C16_statement_false: the CRC does not cover
+    # the type byte); a type-byte case on which the implementation also departs from the model is a different violation
+    disagreed = set()
+    for m in d["mismatches"]:
+        if " :: " in m:
+            disagreed.add(m.split(" :: ", 1)[1].split(" => ")[0])
     for sid, l in viol:
         f = l.split()
-        if f[0] == "WB" and "cls=t" in f and "panic" not in l.split("oracle=")[1]:
+        if f[0] == "WB" and "cls=t" in f and "panic" not in l.split("oracle=")[1] and l.split(" => ")[0] not in disagreed:
             kf.append(l)
         else:
             other.append((sid, l))
